@@ -474,3 +474,22 @@ def dead_load_by_rule_block(draw):
         out += [("PUSH", draw(st.sampled_from([0, 0x40, 0x41])))] + I(store)
     return out + draw(st.sampled_from([[], I("POP"), I("SWAP1"), I("DUP1", load)]))
 
+
+@st.composite
+def dup_tradeoff_block(draw):
+    """duplicated one-byte constants next to duplicated 2-gas zero-operand opcodes: re-computing instead of DUP keeps the
+    length, saves gas on the opcodes and costs bytes on the constants (candidates that tie in one criterion and pull the
+    other two in opposite directions)"""
+    I = lambda *names: [(n, None) for n in names]
+    out = []
+    n = 0
+    for _ in range(draw(st.integers(1, 3))):
+        if draw(st.booleans()):
+            out += [("PUSH", draw(st.sampled_from([5, 0x20, 0xFF, 0x100, 0xFFFF])))] + I("DUP1") * draw(st.integers(1, 2))
+        else:
+            out += I(draw(st.sampled_from(["CALLVALUE", "CALLER", "ADDRESS", "ORIGIN", "CALLDATASIZE", "GASPRICE", "TIMESTAMP"]))) + I("DUP1") * draw(st.integers(1, 2))
+    n = sum(1 for x in out if x[0] != "DUP1") + sum(1 for x in out if x[0] == "DUP1")
+    op = draw(st.sampled_from(["ADD", "XOR", "OR", "MUL"]))
+    out += I(op) * (n - 1)
+    return out + draw(st.sampled_from([[], [("PUSH", 0)] + I("MSTORE"), I("SWAP1", "POP")]))
+
